@@ -147,3 +147,38 @@ Proof.
   destruct (tcp_open cx peer _ w) as [w1 c]. cbn [fst]. rewrite get_set_tcp.
   destruct (d18_accept_mss (cv cx)); split; reflexivity.
 Qed.
+
+(* ---------- the accepted socket is where the connector's route now ends ---------- *)
+Lemma get_chan_set_tcp w s t ci : get_chan (set_tcp w s t) ci = get_chan w ci.
+Proof. destruct w; reflexivity. Qed.
+Lemma get_tcp_set_chan w ci c s : get_tcp (set_chan w ci c) s = get_tcp w s.
+Proof. destruct w; reflexivity. Qed.
+Lemma get_set_chan' w ci c : get_chan (set_chan w ci c) ci = c.
+Proof. unfold get_chan, set_chan. destruct w. simpl. apply mget_mset_eq. Qed.
+
+Theorem tcp_open_attaches_a_forwarder cx s v4 w :
+  let w' := fst (tcp_open cx s v4 w) in
+  exists f, t_fwd (get_tcp w' s) = Some f /\ mget SNone (w_sinks w') f = SFwd (Some (OTcp s)).
+Proof.
+  cbv zeta. unfold tcp_open. destruct (tcp_close cx s w) as [w1 c]. unfold new_fwd. cbn [fst].
+  exists (w_next_sink w1). rewrite get_set_tcp. split.
+  - match goal with |- t_fwd (?x <| t_open := _ |> <| t_is_v4 := _ |> <| t_fwd := _ |>) = _ => destruct x; reflexivity end.
+  - unfold set_tcp, set_sink. destruct w1; simpl. apply mget_mset_eq.
+Qed.
+
+Theorem accepted_socket_ends_the_connectors_route cx peer ep ci w :
+  let w' := fst (tcp_internal_connect cx peer ep ci w) in
+  exists f, t_fwd (get_tcp w' peer) = Some f /\
+            last (ch_hops1 (get_chan w' ci)) 0 = f /\
+            mget SNone (w_sinks w') f = SFwd (Some (OTcp peer)).
+Proof.
+  cbv zeta. unfold tcp_internal_connect.
+  destruct (tcp_open_attaches_a_forwarder cx peer (t_is_v4 (get_tcp w peer)) w) as (f & Hf & Hs).
+  destruct (tcp_open cx peer (t_is_v4 (get_tcp w peer)) w) as [w1 c]. cbn [fst] in *.
+  exists f. rewrite get_set_tcp, get_chan_set_tcp, get_set_chan', Hf.
+  split; [|split].
+  - destruct (d18_accept_mss (cv cx)); destruct (get_tcp w1 peer); simpl in *; exact Hf.
+  - cbn [ch_hops1]. match goal with |- last (ch_hops1 (?c <| ch_hops1 := ?l |>)) 0 = f => assert (ch_hops1 (c <| ch_hops1 := l |>) = l) as E by (destruct c; reflexivity) end.
+    rewrite E. unfold replace_last. apply last_last.
+  - unfold set_tcp, set_chan. destruct w1; simpl in *. exact Hs.
+Qed.
